@@ -92,4 +92,48 @@ theorem two_substitutions (pre mid post : List Nat) (v1 v1' v2 v2' : Nat)
   have := residue_ge (v1 ^^^ v1') mid.length hd1 hd0 hw
   omega
 
+/-! ### the two checksum constants are not one substitution apart -/
+def SWITCH : Nat := BECH32_1_CONST ^^^ BECH32_M_CONST
+
+def residuesNe : Nat → Nat → Bool
+  | 0, c => c != SWITCH
+  | n + 1, c => (c != SWITCH) && residuesNe n (step0 c)
+
+def allNe : Nat → Bool
+  | 0 => true
+  | d + 1 => (d == 0 || residuesNe WINDOW d) && allNe d
+
+theorem tableNe : allNe 32 = true := by decide +kernel
+
+theorem residuesNe_spec (n c : Nat) (h : residuesNe n c = true) : ∀ k, k ≤ n → shiftK k c ≠ SWITCH := by
+  induction n generalizing c with
+  | zero =>
+    intro k hk
+    have : k = 0 := by omega
+    subst this
+    simpa [residuesNe, shiftK] using h
+  | succ n ih =>
+    simp only [residuesNe, Bool.and_eq_true, bne_iff_ne, ne_eq] at h
+    intro k hk
+    cases k with
+    | zero => exact h.1
+    | succ k => simp only [shiftK]; exact ih _ h.2 k (by omega)
+
+theorem allNe_spec (m : Nat) (h : allNe m = true) : ∀ d, d < m → d ≠ 0 → residuesNe WINDOW d = true := by
+  induction m with
+  | zero => intro d hd; omega
+  | succ m ih =>
+    simp only [allNe, Bool.and_eq_true, Bool.or_eq_true, beq_iff_eq] at h
+    intro d hd hne
+    by_cases e : d = m
+    · subst e; rcases h.1 with h0 | h0
+      · exact absurd h0 hne
+      · exact h0
+    · exact ih h.2 d (by omega) hne
+
+/-- a single substitution never turns a bech32 checksum into a bech32m one (or back), up to 1022 values
+    after the changed one. -/
+theorem switch_ne (d k : Nat) (hd : d < 32) (hne : d ≠ 0) (hk : k ≤ WINDOW) : shiftK k d ≠ SWITCH :=
+  residuesNe_spec WINDOW d (allNe_spec 32 tableNe d hd hne) k hk
+
 end Btc.Bech32
